@@ -350,7 +350,11 @@ def run_colperm(ctx, _only=None) -> RuleResult:
                                     etext += " " + U(strip_tags(step.expand(mut))) if isinstance(mut, ast.AST) else " " + str(mut)
                                 except Exception:  # noqa: BLE001
                                     pass
-                        outer = [r for r in reorders if not any(r is not o and U(r) in U(o) for o in reorders)]
+                        by_text = {}
+                        for r in reorders:
+                            by_text.setdefault(U(r), r)
+                        uniq = list(by_text.values())
+                        outer = [r for r in uniq if not any(r is not o and U(r) in U(o) for o in uniq)] or uniq[:1]
                         ok = all(U(r) in etext for r in outer)
                         result.ob(f"{module.name}.{qual}: re-ordered names and exponent columns share the re-ordering", ok,
                                   module.loc(step.orig), U(outer[0])[:80])
